@@ -8,6 +8,7 @@ import (
 	"fmt"
 	"sort"
 	"testing"
+	"time"
 
 	"github.com/anishathalye/porcupine"
 	"github.com/tychoish/fun/pubsub"
@@ -210,7 +211,12 @@ func (r *seqRun) apply(s vkit.Step) {
 		ctx = r.cctx
 	}
 	var out vkit.Result
-	vkit.Guard(r.t, tSeq, "C05:seq/"+s.Op, func() any { return r.c }, func() { out = r.ex(0, s, ctx) })
+	// on one goroutine a call that does not return blocks for ever: the
+	// model says this call cannot block (otherwise it got a cancelled
+	// context)
+	vkit.Watch(tSeq, "C05:seq/"+s.Op+"/blocks", vkit.Pick(20*time.Second, 60*time.Second), func() any { return r.c }, func() {
+		vkit.Guard(r.t, tSeq, "C05:seq/"+s.Op, func() any { return r.c }, func() { out = r.ex(0, s, ctx) })
+	})
 	out.Cancelled = s.Ctx == 0
 	ok, next := step(r.st, s, out)
 	if !ok {
